@@ -164,7 +164,8 @@ func (w *World) genAddCheckpoint(rq *request, r *core.Rand) {
 	case "bad-sig":
 		signer = g.other
 	case "extension":
-		ext = "extra line\n"
+		// any extension line, also one that is only white space
+		ext = []string{"extra line\n", " \n", "\t\n", "a\nb\n", "  x\n"}[r.Intn(5)]
 	case "bad-proof":
 		if rq.old == 0 || rq.old == rq.n {
 			proof = append(proof, tlog.Hash{7})
